@@ -731,6 +731,18 @@ impl G2 {
                     self.st.pop();
                     self.w(&format!("local {} {} drop", l, l));
                 }
+                if rng.chance(1, 3) {
+                    // a local (re)initialised on every pass of a loop with a value that changes from pass to pass,
+                    // read back each time; also a variable store with a changing value
+                    self.feat("loop-local");
+                    let l = format!("{}v", name);
+                    match rng.below(4) {
+                        0 => self.w(&format!("{} 0 do I 10 * local {} {} {} + drop loop", rng.range(2, 4), l, l, l)),
+                        1 => self.w(&format!("[ 4 5 6 ] foreach I local {} {} drop loop", l, l)),
+                        2 => self.w(&format!("2 0 do 2 0 do I J + local {} {} drop loop loop", l, l)),
+                        _ => self.w(&format!("7 local {} {} 1 + local {} {} drop", l, l, l, l)),
+                    }
+                }
                 self.rebalance(rng, &[]);
                 if let Some(t) = ret {
                     self.push(rng, t, 1);
@@ -766,6 +778,12 @@ impl G2 {
                 self.w(&format!("var {}", name));
                 self.st.pop();
                 self.vars.push((name, t));
+            }
+            54 if self.vars.is_empty() && depth == 0 && !self.in_def => {
+                self.feat("store-in-loop");
+                let n = self.name("g");
+                self.w(&format!("0 var {} 3 0 do I {} + ! {} loop", n, n, n));
+                self.vars.push((n, T::I));
             }
             54 if !self.vars.is_empty() => {
                 self.feat("store");
